@@ -311,11 +311,14 @@ def build(name, argseed, dadi, env):
         if fn == "multinomln":
             return Numerics.multinomln, [[int(v) for v in rng.integers(0, 6, size=3)]], {}, F
         if fn == "BetaBinomln":
-            return Numerics.BetaBinomln, [int(rng.integers(0, 3)), 2, float(rng.uniform(0.1, 5)), float(rng.uniform(0.1, 5))], {}, F
+            # the three argument seeds share (i, n) and one of alpha / beta, so that a memo keyed on too little collides
+            k = int(argseed) % 3
+            return Numerics.BetaBinomln, [1, 2, [1.5, 1.5, 0.7][k], [0.5, 2.0, 2.0][k]], {}, F
         if fn == "cached_part":
             return (lambda a, b: [list(p) for p in Numerics.cached_part(a, b)]), [int(rng.integers(0, 9)), 4], {}, F
         if fn == "BetaBinomConvolution":
-            return Numerics.BetaBinomConvolution, [int(rng.integers(0, 7)), 3, float(rng.uniform(0.1, 5)), float(rng.uniform(0.1, 5))], {}, F
+            k = int(argseed) % 3
+            return Numerics.BetaBinomConvolution, [3, 3, [1.25, 1.25, 0.4][k], [0.75, 3.0, 3.0][k]], {}, F
         if fn == "apply_anc_state_misid":
             return Numerics.apply_anc_state_misid, [_spectrum(rng, dadi), float(rng.uniform(0, 0.3))], {}, F
         if fn == "reverse_array":
